@@ -14,6 +14,7 @@ import (
 	"github.com/enbility/ship-go/zzverif/fakews"
 	"github.com/enbility/ship-go/zzverif/hx"
 	"github.com/enbility/ship-go/zzverif/simrt"
+	"github.com/enbility/ship-go/zzverif/ssync"
 )
 
 var prop = flag.String("prop", "C12", "C12|C13|C20|C08")
@@ -29,6 +30,7 @@ type rec struct {
 	blockIn   bool
 	conn      *ws.WebsocketConnection
 	queried   []string // what the closed-query answered while the error was being reported
+	mu        *ssync.Mutex // if set: the lock the SHIP layer holds while it handles an input (and writes its answer) and takes when it is told an error
 }
 
 func (r *rec) tick() int { r.seq++; return r.seq }
@@ -39,6 +41,10 @@ func (r *rec) HandleIncomingWebsocketMessage(m []byte) {
 	r.incomingAt = append(r.incomingAt, r.tick())
 }
 func (r *rec) ReportConnectionError(err error) {
+	if r.mu != nil {
+		r.mu.Lock()
+		defer r.mu.Unlock()
+	}
 	simrt.Touch("rec")
 	r.errors = append(r.errors, err)
 	r.errorAt = append(r.errorAt, r.tick())
@@ -93,9 +99,15 @@ func (wd *world) doClose(kind string) {
 	}
 }
 
-func c12Body(nw, per int, closer string, stall bool) func() {
+func c12Body(nw, per int, closer string, stall bool, sharedLock ...bool) func() {
 	return func() {
 		wd := newWorld()
+		shared := len(sharedLock) > 0 && sharedLock[0]
+		if shared {
+			// the consumer serialises its inputs the way ship.ShipConnection does: a writer holds the lock that the error
+			// report needs (a handler answering a message, an approval, a timer expiry)
+			wd.r.mu = &ssync.Mutex{}
+		}
 		if closer == "write-fault" {
 			wd.a.WriteFaultAt = 1
 		}
@@ -122,7 +134,13 @@ func c12Body(nw, per int, closer string, stall bool) func() {
 					c.closedB4, _ = wd.w.IsDataConnectionClosed()
 					simrt.Touch("rec")
 					c.begin = wd.r.tick()
+					if shared {
+						wd.r.mu.Lock()
+					}
 					c.err = wd.w.WriteMessageToWebsocketConnection([]byte(c.payload))
+					if shared {
+						wd.r.mu.Unlock()
+					}
 					simrt.Touch("rec")
 					c.end = wd.r.tick()
 					c.returned = true
@@ -228,6 +246,17 @@ func c12Scenarios(r *hx.Run) []hx.Scenario {
 		// a full queue with a further writer waiting needs three messages: the transport-failure cases get them in quick too
 		for _, cl := range []string{"write-fault", "link-cut", "peer-eof"} {
 			out = append(out, hx.Scenario{Name: fmt.Sprintf("c12:w=3,per=1,close=%s,stall=true", cl), Body: c12Body(3, 1, cl, true), Bounds: simrt.B(0, 0, 0)})
+		}
+	}
+	// writers that hold the lock the consumer's error report takes (as the SHIP layer's handlers do): non-local closures
+	sb := 1
+	if r.Thorough() {
+		sb = 2
+	}
+	for _, cl := range []string{"write-fault", "link-cut", "peer-eof", "peer-closeframe"} {
+		out = append(out, hx.Scenario{Name: fmt.Sprintf("c12:w=3,per=1,close=%s,stall=true,sharedlock", cl), Body: c12Body(3, 1, cl, true, true), Bounds: simrt.B(sb-1, 0, 0)})
+		if r.Thorough() || cl == "write-fault" {
+			out = append(out, hx.Scenario{Name: fmt.Sprintf("c12:w=2,per=1,close=%s,stall=true,sharedlock", cl), Body: c12Body(2, 1, cl, true, true), Bounds: simrt.B(sb, 0, 0)})
 		}
 	}
 	for _, sh := range shapes {
